@@ -175,7 +175,8 @@ def wire(R, RID='C04.wire'):
     # 7-bit length and its extended forms
     plen = None
     for n in g.live_nodes():
-        if n.kind == 'stmt' and isinstance(n.ast, ast.Assign) and isinstance(n.ast.targets[0], ast.Name):
+        if n.kind == 'stmt' and isinstance(n.ast, ast.Assign) and isinstance(n.ast.targets[0], ast.Name) \
+                and not isinstance(n.ast.value, ast.Name):
             bits = _bits(n.ast.value, {b2})
             if bits is None and not any(isinstance(x, (ast.Yield, ast.Call)) for x in ast.walk(n.ast.value)):
                 from .common import subst_locals as _sl
@@ -185,9 +186,20 @@ def wire(R, RID='C04.wire'):
     need(plen is not None, 'FrameParser.parse: 7-bit length extraction `byte2 & 0x7f` not found')
     R.ob(RID, '7-bit length field', True, '%s = %s' % (plen[1], U(plen[0].ast.value)), func=f, node=plen[0].ast)
     lv = plen[1]
+    # the field may be copied once into the variable that the extended forms then replace (length = header_len); the marker
+    # tests may read either name as long as the 7-bit field itself is never re-bound
+    lvs = {lv}
+    copies = set()
+    if sum(1 for n in g.live_nodes() if lv in defs_of_node(n)) == 1:
+        for n in g.live_nodes():
+            if n.kind == 'stmt' and isinstance(n.ast, ast.Assign) and len(n.ast.targets) == 1 and \
+                    isinstance(n.ast.targets[0], ast.Name) and isinstance(n.ast.value, ast.Name) and n.ast.value.id == lv:
+                lvs.add(n.ast.targets[0].id)
+                copies.add(n)
     ext = []
     for n in g.live_nodes():
-        if n.kind == 'stmt' and isinstance(n.ast, ast.Assign) and lv in defs_of_node(n) and n is not plen[0]:
+        if n.kind == 'stmt' and isinstance(n.ast, ast.Assign) and (lvs & set(defs_of_node(n))) and n is not plen[0] \
+                and n not in copies:
             ext.append(n)
     forms = {}
     for n in ext:
@@ -209,7 +221,7 @@ def wire(R, RID='C04.wire'):
         if sf == ('unpack', '!int'):
             sf = ('unpack', {2: '!H', 8: '!Q'}.get(cnt, '!int'))
         gs = {(t, p) for (t, p, _) in guards_of(g, n)}
-        lo, hi = interval_of(R, g.ctx, gs, lv, domain=(0, 127))
+        lo, hi = interval_of(R, g.ctx, gs, lvs, domain=(0, 127))
         forms[n] = (sf, cnt, lo, hi)
         import struct as _s
         ok = sf is not None and sf[0] == 'unpack' and sf[1] in ('!H', '!Q') and cnt == _s.calcsize(sf[1]) \
@@ -218,17 +230,18 @@ def wire(R, RID='C04.wire'):
              'marker %s..%s reads %s bytes decoded with %s' % (lo, hi, cnt, sf), func=f, node=n.ast)
         # the marker test must look at the 7-bit field, not at a length already decoded by another form
         for (tn, lab) in g.edge_guards(n):
-            if tn.kind == 'test' and lv in {x.id for x in walk_no_nested(tn.ast) if isinstance(x, ast.Name)}:
-                okd = rd.defs_at(tn, lv) == {plen[0]}
+            used = lvs & {x.id for x in walk_no_nested(tn.ast) if isinstance(x, ast.Name)}
+            if tn.kind == 'test' and used:
+                okd = all(rd.defs_at(tn, u_) <= ({plen[0]} | copies) for u_ in used)
                 R.ob(RID, 'marker test for %s reads the 7-bit field' % (sf[1] if sf else '?'), okd,
                      'the test `%s` is evaluated on a length that may already have been replaced by an extended length '
                      '(definitions reaching it: %s): a decoded length equal to the other marker is decoded twice' % (
-                         U(tn.ast), sorted(d.text()[:40] for d in rd.defs_at(tn, lv))), func=f, node=tn.ast)
+                         U(tn.ast), sorted(d.text()[:40] for u_ in used for d in rd.defs_at(tn, u_))), func=f, node=tn.ast)
     R.ob(RID, 'both extended forms present', sorted((v[0] or ('', ''))[1] for v in forms.values()) == ['!H', '!Q'],
          'extended length forms: %s' % [v[0] for v in forms.values()], func=f, node=plen[0].ast,
          construct='extended length forms')
-    lennames = {lv} | {U(n.ast.value) for n in ext if isinstance(n.ast.value, ast.Name)}
-    R._c04 = {'g': g, 'rd': rd, 'cons': cons, 'lenvar': lv, 'lendefs': {plen[0]} | set(ext), 'hdr': hdr,
+    lennames = lvs | {U(n.ast.value) for n in ext if isinstance(n.ast.value, ast.Name)}
+    R._c04 = {'g': g, 'rd': rd, 'cons': cons, 'lenvar': (sorted(lvs - {lv})[0] if len(lvs) == 2 else lv), 'lendefs': {plen[0]} | set(ext) | copies, 'hdr': hdr,
               'lennames': lennames}
 
 
